@@ -79,11 +79,16 @@ func (x *Exec) verifyFunc(key string) (err error) {
 	x.curFn = key
 	x.paths = 0
 	con := x.Lib.Funcs[key]
+	x.reveal = map[string]bool{}
+	if con != nil {
+		x.reveal = con.Reveal
+	}
 	st := newState()
 	a0 := x.C.freshName("alloc0")
 	x.C.decl(fmt.Sprintf("(declare-const %s Int)", a0))
 	x.C.decl(fmt.Sprintf("(assert (> %s 0))", a0))
 	st.alloc = a0
+	x.alloc0 = a0
 	fr := x.newFrame(fn, con, 0)
 	fr.allocIn = a0
 	var args []Val
@@ -262,6 +267,9 @@ func (x *Exec) cellValue(st *State, fr *Frame, a *ssa.Alloc) (Val, bool) {
 }
 
 func (x *Exec) checkEnsures(st *State, fr *Frame, results []Val) {
+	// vacuity guard: this return must be reachable on at least one path of the function
+	x.emit(st, "cover:return", "cover", "false", nil, token.NoPos)
+	x.obls[len(x.obls)-1].Cover = true
 	if fr.con == nil {
 		return
 	}
@@ -269,7 +277,11 @@ func (x *Exec) checkEnsures(st *State, fr *Frame, results []Val) {
 		var unf []string
 		env := x.envFor(fr, st, results, "ensures")
 		env.unfold = &unf
-		t, err := env.evalBool(c.Expr)
+		ex := c.Expr
+		if w := fr.con.Witness[c.Label]; w != nil {
+			ex = instantiate(ex, w)
+		}
+		t, err := env.evalBool(ex)
 		if err != nil {
 			x.bail("ensures %s: %v", c.Label, err)
 		}
